@@ -127,7 +127,9 @@ func newS(slot, id int, reg string) any {
 	default:
 		v = &S3{Inst{id, reg, runNo}}
 	}
-	live.trackInst(id, v)
+	if R == nil || !R.bare {
+		live.trackInst(id, v)
+	}
 	return v
 }
 
@@ -348,6 +350,7 @@ type opCtx struct {
 // run is the state of one scenario.
 type runState struct {
 	mu       sync.Mutex
+	cmu      sync.Mutex
 	cfg      *Cfg
 	nextID   int
 	fnReg    map[string]string // function name -> registration id
@@ -362,6 +365,11 @@ type runState struct {
 	cur      *opCtx
 	quiet    bool
 	stop     bool
+	bare     bool // no recorder at all (race-detector runs)
+	concurrent   bool
+	curs         map[int64]*opCtx // per goroutine (concurrent mode)
+	pendingNames map[godi.Scope]string
+	creating     map[int64]string
 	instReg  map[int]string
 	waiters  map[godi.Scope]chan struct{}
 	gate     func(point string, args ...any) // ctor / close scheduling gate (concurrent mode)
@@ -372,10 +380,41 @@ var R *runState
 type ctxMarkerKey struct{}
 
 func curOp() *opCtx {
+	if R.concurrent && S != nil {
+		R.cmu.Lock()
+		c := R.curs[goid()]
+		R.cmu.Unlock()
+		if c != nil {
+			return c
+		}
+	}
 	if R.cur != nil {
 		return R.cur
 	}
 	return &opCtx{op: "-", scope: "-"}
+}
+
+// curOpLocked is curOp for callers that already hold R.mu.
+func curOpLocked() *opCtx {
+	if R.concurrent && S != nil {
+		R.cmu.Lock()
+		c := R.curs[goid()]
+		R.cmu.Unlock()
+		if c != nil {
+			return c
+		}
+	}
+	return R.cur
+}
+
+func setCur(c *opCtx) {
+	R.cmu.Lock()
+	if c == nil {
+		delete(R.curs, goid())
+	} else {
+		R.curs[goid()] = c
+	}
+	R.cmu.Unlock()
 }
 
 func argInst(v any) argRec {
@@ -418,8 +457,15 @@ func scopeName(s godi.Scope) string {
 	if n, ok := R.names[s]; ok {
 		return n
 	}
+	if n, ok := R.pendingNames[s]; ok {
+		return n
+	}
 	c := curOp()
 	if c.op == "build" || c.op == "create" {
+		if R.concurrent && c.op == "create" {
+			R.pendingNames[s] = c.scope // the scope being created by this goroutine (may yet be abandoned)
+			return c.scope
+		}
 		if _, taken := R.scopes[c.scope]; !taken {
 			R.scopes[c.scope] = s
 			R.names[s] = c.scope
@@ -464,7 +510,15 @@ func argProv(p godi.Provider) argRec {
 
 // recCtor is called by every library constructor: applies the fault script, allocates
 // instance ids, emits the ctor event.  n = number of instances to allocate.
+var bareIDs int64
+
 func recCtor(fn string, ign bool, n int, args []argRec) (ids []int, reg string, err error) {
+	if R.bare {
+		for i := 0; i < n; i++ {
+			ids = append(ids, int(atomic.AddInt64(&bareIDs, 1)))
+		}
+		return ids, "bare", nil
+	}
 	if R.gate != nil {
 		R.gate("U_ctor", fn)
 	}
@@ -514,7 +568,7 @@ func recCtor(fn string, ign bool, n int, args []argRec) (ids []int, reg string, 
 	quiet := R.quiet
 	R.mu.Unlock()
 	if !quiet {
-		emit(M{"ev": "ctor", "reg": reg, "fn": fn, "inv": inv, "scope": sc, "args": args, "outs": outs, "outcome": outcome, "ign": ign})
+		emit(M{"ev": "ctor", "th": procName(), "reg": reg, "fn": fn, "inv": inv, "scope": sc, "args": args, "outs": outs, "outcome": outcome, "ign": ign})
 	}
 	switch outcome {
 	case "err":
@@ -582,7 +636,8 @@ func mkInit(fn string, args ...argRec) error {
 var runNo int
 
 func recClose(id int, run int) error {
-	if R == nil || run != runNo {
+	R := R
+	if R == nil || R.bare || run != runNo {
 		return nil
 	}
 	if R.gate != nil {
@@ -597,7 +652,7 @@ func recClose(id int, run int) error {
 		outcome = "err"
 	}
 	if !quiet {
-		emit(M{"ev": "close", "inst": id, "outcome": outcome})
+		emit(M{"ev": "close", "th": procName(), "inst": id, "outcome": outcome})
 	}
 	if bad {
 		return errCloseFault
@@ -764,7 +819,7 @@ func resOf(v any) M {
 }
 
 func baseRet(op string) M {
-	return M{"ev": "ret", "op": op, "err": []string{}, "panic": false, "res": noneRes(), "path": []M{}, "ctxok": true}
+	return M{"ev": "ret", "th": "main", "op": op, "err": []string{}, "panic": false, "res": noneRes(), "path": []M{}, "ctxok": true}
 }
 
 func callEv(o *Op) M {
@@ -774,7 +829,7 @@ func callEv(o *Op) M {
 		}
 		return s
 	}
-	return M{"ev": "call", "op": o.Op, "sc": d(o.Sc), "name": d(o.Name), "t": d(o.T), "k": d(o.K), "g": d(o.G), "ctx": d(o.Ctx)}
+	return M{"ev": "call", "th": "main", "op": o.Op, "sc": d(o.Sc), "name": d(o.Name), "t": d(o.T), "k": d(o.K), "g": d(o.G), "ctx": d(o.Ctx)}
 }
 
 // target returns the godi.Provider (scope or provider) an operation addresses.
@@ -845,7 +900,7 @@ func doOp(o *Op) {
 		}
 	}
 	emit(callEv(o))
-	out.Flush()
+	flushOut()
 	ret := baseRet(o.Op)
 	switch o.Op {
 	case "resolve", "group":
@@ -1069,7 +1124,8 @@ func newRun(cfg *Cfg) *runState {
 	r := &runState{cfg: cfg, fnReg: map[string]string{}, regByID: map[string]*RegCfg{}, inv: map[string]int{},
 		closeErr: map[string]bool{}, scopes: map[string]godi.Scope{}, names: map[godi.Scope]string{},
 		cancels: map[string]context.CancelFunc{}, markers: map[string]string{}, instReg: map[int]string{},
-		waiters: map[godi.Scope]chan struct{}{}}
+		waiters: map[godi.Scope]chan struct{}{}, curs: map[int64]*opCtx{}, pendingNames: map[godi.Scope]string{},
+		creating: map[int64]string{}}
 	for i := range cfg.Regs {
 		r.regByID[cfg.Regs[i].ID] = &cfg.Regs[i]
 	}
@@ -1151,11 +1207,11 @@ func containerMain(args []string) {
 		raw := append([]byte(nil), sc.Bytes()...)
 		if err := json.Unmarshal(raw, &s); err != nil {
 			fmt.Fprintln(os.Stderr, "bad scenario:", err)
-			out.Flush()
-			os.Exit(2)
+			flushOut()
+			os.Exit(4)
 		}
 		runScenario(&s, raw, run)
-		out.Flush()
+		flushOut()
 	}
 }
 
